@@ -156,7 +156,7 @@ def assemble(unit_path, variant=None):
             A.emit(text, "extract", qual, lmap, p["relpath"])
             end = len(A.lines)
             A.rewrites += log
-            mode = "M4" if ann.get("seg_from") else "M3" if ann.get("slice_k") is not None else ("M2" if (ann.get("replaces") or ann.get("maploops") or ann.get("forloops") or ann.get("anyloops") or ann.get("findloops")) else "M1")
+            mode = "M4" if ann.get("seg_from") else "M3" if ann.get("slice_k") is not None else ("M2" if (ann.get("replaces") or ann.get("maploops") or ann.get("forloops") or ann.get("anyloops") or ann.get("findloops") or ann.get("findmuts")) else "M1")
             if ann.get("imported_from"):
                 mode = "ASSUMED"
                 A.trusted.append(f"contract of {p['relpath']}::{qual} imported verbatim from unit {ann['imported_from']} where it is PROVED")
@@ -213,6 +213,12 @@ def assemble(unit_path, variant=None):
             ann.setdefault("anyloops", {})[arg] = text
         elif name == "findloop":
             ann.setdefault("findloops", {})[arg] = text
+        elif name == "findmut":
+            ann.setdefault("findmuts", {})[arg] = text
+        elif name == "findmuthit":
+            ann.setdefault("findmuthits", {})[arg] = text
+        elif name == "findmutexit":
+            ann.setdefault("findmutexits", {})[arg] = text
         elif name == "findhit":
             ann.setdefault("findhits", {})[arg] = text
         elif name == "findexit":
@@ -263,7 +269,7 @@ def assemble(unit_path, variant=None):
         d, rest = m.group(1), m.group(2).strip()
         if d != "use":
             flush_groups()
-        if d in ("requires", "ensures", "closure", "loop", "maploop", "forloop", "anyloop", "findloop", "findhit", "findexit", "looptail", "loophead", "head", "tail", "params", "segtail", "before", "before_stmt", "after", "replace", "with", "decreases"):
+        if d in ("requires", "ensures", "closure", "loop", "maploop", "forloop", "anyloop", "findloop", "findhit", "findexit", "findmut", "findmuthit", "findmutexit", "looptail", "loophead", "head", "tail", "params", "segtail", "before", "before_stmt", "after", "replace", "with", "decreases"):
             close_section()
             if pending is None:
                 raise Inconclusive(f"{unit_path}:{i+1}: //@{d} outside //@fn")
